@@ -129,6 +129,10 @@ Proof.
     destruct Q3 as [Q3|Q3]; [subst m; reflexivity | apply Hecho; assumption].
 Qed.
 
+Lemma stale_partial : forall c s m,
+  id_unanswered s m -> resp_hooks_from (s_script s) (snd (handle_msg c true s m)).
+Proof. intros c s m H. exact (proj2 (handle_msg_client_fresh c s m (or_intror H))). Qed.
+
 (* ---------- witnesses ---------- *)
 
 Definition q1 := mkMsg 1 true 0 true 1 [x61] [x01].
